@@ -370,8 +370,15 @@ def _collect_bound_values(
         if isinstance(node, GraphNode):
             # Get bound values from the inner graph
             inner_bound = node.graph.inputs.bound
+            # Inner names may have been renamed on the wrapper (with_inputs):
+            # surface each binding under the wrapper's current input name.
+            from hypergraph.nodes._rename import build_reverse_rename_map
+
+            current_to_original = build_reverse_rename_map(node._rename_history, "inputs")
+            original_to_current = {orig: cur for cur, orig in current_to_original.items()}
             # Merge into all_bound (current graph's values take precedence)
             for key, value in inner_bound.items():
+                key = original_to_current.get(key, key)
                 if key not in all_bound:
                     all_bound[key] = value
 
